@@ -1,7 +1,7 @@
 (** C08 — compact and full outputs describe the same tensor. *)
 From Coq Require Import List Arith Bool NArith.
 Import ListNotations.
-From SymfcV Require Import Tuples Group Concrete AtomIdx.
+From SymfcV Require Import Tuples Group Concrete AtomIdx ElemIdx.
 From SymfcG Require Import SolverStruct IndepGen.
 Local Open Scope nat_scope.
 
@@ -63,6 +63,25 @@ Print Assumptions c08_atomic_index_table_is_class_code.
 Example c08_atomic_ex : map snd (atomic_writes 2 [[0; 1]; [1; 0]] 1) = [0; 0; 1; 1]%N
   /\ map fst (atomic_writes 2 [[0; 1]; [1; 0]] 1) = [[0; 0]; [1; 1]; [0; 1]; [1; 0]].
 Proof. split; reflexivity. Qed.
+
+(** The element-level table behind C_trans / the full output (`get_lat_trans_decompr_indices`, `_O3`, `_O4`: the same
+    loops with an innermost loop over the 3^n Cartesian components; whole-function match, regenerated): every write
+    at (translated atoms, component ab) carries  class code of the atoms * K + ab,  and every in-range (atoms, ab) is
+    written -- so full[atoms, ab] is read from compact row/column (class of the atoms, ab): compact == full[p2s_map] and
+    the full tensor is the compact one moved by the translations.  Every valid table, depth and K. *)
+Theorem c08_element_indices_in_force : element_indices_are_counter_loops = true.
+Proof. reflexivity. Qed.
+Theorem c08_element_index_table NA tp K k atoms ab v :
+  valid_tp NA tp = true -> In ((atoms, ab), v) (elem_writes NA tp K k) ->
+  v = (cls_code NA tp atoms * N.of_nat K + N.of_nat ab)%N /\ length atoms = S k /\ in_range NA atoms /\ ab < K.
+Proof. intros Hv. exact (elem_writes_sound NA tp Hv K k atoms ab v). Qed.
+Print Assumptions c08_element_index_table.
+Theorem c08_element_index_table_total NA tp K k atoms ab :
+  valid_tp NA tp = true -> length atoms = S k -> in_range NA atoms -> ab < K -> exists v, In ((atoms, ab), v) (elem_writes NA tp K k).
+Proof. intros Hv. exact (elem_writes_complete NA tp Hv K k atoms ab). Qed.
+Print Assumptions c08_element_index_table_total.
+Example c08_elem_ex : map snd (elem_writes 2 [[0; 1]; [1; 0]] 2 0) = [0; 0; 1; 1]%N.
+Proof. reflexivity. Qed.
 
 (** Both outputs are comp @ (basis @ coefs) with the same coefficients; the compact matrix is the
     translation-compressed matrix scaled by 1/sqrt(n_lp), the same factor that C_trans carries. *)
